@@ -315,6 +315,29 @@ def r_sweep252(sim):
     return [sim.spend([op], [('D', _val(sim, op))]) for op in ops[:252]]
 
 
+def _big(n):
+    def recipe(sim):
+        ops = [op for op in sim.spendable(SPENDABLE_KEYS) if _val(sim, op) > 10 ** 7]
+        if not ops:
+            return []
+        v = _val(sim, ops[0])
+        outs = [('ABCD'[i % 4], 1000 + i) for i in range(n)]
+        outs.append(('A', v - sum(x[1] for x in outs)))
+        return [sim.spend([ops[0]], outs)]
+    recipe.__name__ = f'r_big{n}'
+    return recipe
+
+
+def _sweep(n, reverse=False):
+    def recipe(sim):
+        ops = [op for op in sim.spendable(SPENDABLE_KEYS) if 1000 <= _val(sim, op) < 2000][:n]
+        if reverse:
+            ops = ops[::-1]
+        return [sim.spend([op], [('D', _val(sim, op))]) for op in ops]
+    recipe.__name__ = f'r_sweep{n}' + ('r' if reverse else '')
+    return recipe
+
+
 def _collide(k):
     def recipe(sim):
         return ('collision-coinbase', k)
@@ -340,6 +363,10 @@ RECIPES = {
     'scol0': _spend_collide(0), 'scol1': _spend_collide(1), 'scol2': _spend_collide(2),
 }
 
+for _n in (1, 198, 199, 200, 252, 299, 400):
+    RECIPES[f'big{_n}'] = _big(_n)
+    RECIPES[f'sweep{_n}'] = _sweep(_n)
+    RECIPES[f'sweep{_n}r'] = _sweep(_n, reverse=True)
 _COLLISIONS = None
 
 
